@@ -442,7 +442,7 @@ mod request {
                         let buffer: &mut BytesMut = &mut buffer;
                         let read: &mut usize = read;
                         assert!(buffer.len() == *read);
-                        if buffer.len() == max_len {
+                        if buffer.len() >= max_len {
                             return Err(Error::HeaderTooLong);
                         }
 
@@ -456,8 +456,10 @@ mod request {
 
                         unsafe { buffer.set_len(buffer.capacity()) };
                         let Encryption::Tcp(tcp) = &mut *stream;
+                        // Never read past `max_len`, however large `reserve` made the buffer.
+                        let end = buffer.len().min(max_len);
                         let read_now = tcp
-                            .read(&mut buffer[*read..])
+                            .read(&mut buffer[*read..end])
                             .ok()
                             .ok_or(Error::UnexpectedEnd)?;
                         *read += read_now;
